@@ -491,5 +491,24 @@ seed("c20-close-first-listener-error", "C20", "R-close-effects", "server.go",
 seed("c04-writeerror-callsite-enh", "C04", "R-err-passthrough", "conn.go",
 """		c.writeResponse(smtpErr.Code, smtpErr.EnhancedCode, smtpErr.Message)""", """		c.writeResponse(smtpErr.Code, enhCode, smtpErr.Message)""", "backend code paired with the call site's enhanced code")
 
+seed("c15-ehlo-merges-ext", "C15", "R-ext-latest-ehlo", "client.go",
+"""	c.ext = ext
+	return err""", """	if c.ext == nil {
+		c.ext = ext
+	} else {
+		for k, v := range ext {
+			c.ext[k] = v
+		}
+	}
+	return err""", "extensions of an earlier EHLO are kept")
+seed("c14-rrvs-literal-z", "C14", "R-field-key", "client.go",
+"""opts.RequireRecipientValidSince.Format(time.RFC3339)""", """opts.RequireRecipientValidSince.Format("2006-01-02T15:04:05Z")""", "layout with a literal Z (server side changed too would still lose the zone)")
+seed("c12-size-64bit", "C12", "R-size-param", "conn.go",
+"""strconv.ParseUint(value, 10, 32)""", """strconv.ParseUint(value, 10, 64)""", "advertised SIZE not honoured for values >= 2^63")
+seed("c06-overlimit-unread", "C06", "R-dot-state-carried", "data.go",
+"""			// The last octet is beyond the limit, it is not handed out.
+			return n - 1, ErrDataTooLarge""", """			r.r.UnreadByte()
+			return n - 1, ErrDataTooLarge""", "over-limit octet pushed back after the automaton advanced on it")
+
 json.dump(S, open(os.path.join(os.path.dirname(os.path.abspath(__file__)), "bank.json"), "w"), indent=1)
 print(len(S), "seeds")
